@@ -93,8 +93,8 @@ def aff_of(t):
     return T.affine(t, atomize)
 
 
-def run(ctx):
-    for cfg in CONFIGS:
+def run(ctx, configs=None):
+    for cfg in (configs or CONFIGS):
         prog = ctx.prog(cfg)
         roles, eff = effects.build(prog)
         fr = roles.f_read
@@ -362,7 +362,13 @@ def run(ctx):
         helpers = [prog.bodies[c] for c in sorted(prog.reachable_fns([pk.path])) if c != pk.path and c in prog.bodies and c not in (one.path, full.path)]
         for b in [pk] + helpers:
             for bb, t in b.calls():
-                if cname(t["func"]).endswith("packet::Packet::extend"):
+                n_ = cname(t["func"])
+                is_append = n_.endswith("packet::Packet::extend")
+                if not is_append and re.search(r"Vec::<T, A>::extend_from_slice$|Extend<.*>>::extend$", n_) and (t.get("arg_tys") or [""])[0].startswith("&mut std::vec::Vec<u8"):
+                    # the same append written out on the packet's byte vector (`payload.0.extend_from_slice(bytes)`)
+                    r0 = b.arg_origin(bb, 0)
+                    is_append = T.contains(r0, lambda x: x[0] == "somepayload" or (x[0] == "variant" and x[2] == "Some"))
+                if is_append:
                     n_ext += 1
                     recv, data = b.arg_origin(bb, 0), b.arg_origin(bb, 1)
                     # receiver: the accumulated packet (Some payload of the accumulator); data: the new fragment's payload
